@@ -162,3 +162,28 @@ Definition modelled_go_statements : list (string * string) :=
     ("internal/lossy/encode_analysis.go", "computeAlphas");
     ("internal/lossy/encode_parallel.go", "encodeFrameParallel")
   ].
+
+(** Partition shape of every go statement, as recognised from the source by
+    tools/gosrc2v/partshapes.go (Gen/PartShapes.v; an unknown shape makes the translator
+    refuse).  A shape name is the model function above whose exact-cover theorem
+    (ConcPartitionProofs.v, all n and all sizes) describes that site. *)
+Definition modelled_site_shapes : list (string * string * string) :=
+  [ ("animation/animation.go", "DecodeFramesParallel", "workers_decode_frames");
+    ("animation/animation.go", "DecodeFramesParallel", "join_closer");
+    ("internal/lossless/decode.go", "argbToNRGBA", "ranges_argb_to_nrgba");
+    ("internal/lossless/decode_transform.go", "colorSpaceInverseTransformParallel", "ranges_inv_cross_color");
+    ("internal/lossless/encode_histogram.go", "histogramRemap", "ranges_ceil");
+    ("internal/lossless/encode_histogram.go", "parallelComputeHistogramCost", "ranges_ceil");
+    ("internal/lossless/encode_predictor.go", "ResidualImage", "ranges_ceil");
+    ("internal/lossless/encode_predictor.go", "ColorSpaceTransform", "ranges_ceil");
+    ("internal/lossless/hashchain.go", "fillParallel", "ranges_hashchain");
+    ("internal/lossy/encode.go", "importImage", "ranges_prop");
+    ("internal/lossy/encode.go", "importImage", "ranges_prop");
+    ("internal/lossy/encode_analysis.go", "computeAlphas", "ranges_compute_alphas");
+    ("internal/lossy/encode_parallel.go", "encodeFrameParallel", "workers_encode_parallel")
+  ].
+
+(** shapes with a proved exact-cover / bounds theorem *)
+Definition proved_shapes : list string :=
+  ["ranges_ceil"; "ranges_prop"; "ranges_argb_to_nrgba"; "ranges_inv_cross_color"; "ranges_hashchain";
+   "ranges_compute_alphas"; "workers_encode_parallel"; "workers_decode_frames"; "join_closer"].
